@@ -73,6 +73,8 @@ func ProfileFor(id, tier string) *Profile {
 		bump(map[string]int{"request_attestations": 8, "delegate": 8, "undelegate": 8, "redelegate": 5, "create_validator": 3, "unjail_validator": 5})
 		p.Faults["byz_ext"] = 0.3
 		p.Faults["tamper"] = 0.3
+		p.Faults["failed_round"] = 0.15 // several proposals per height, processed by different subsets of the nodes
+		p.Faults["vote_loss"] = 0.3
 		p.Faults["partition"] = 0.05
 		p.Candidates = [2]int{0, 2}
 		p.BigGaps = 0.04
